@@ -281,6 +281,18 @@ example : (run St.init (sched "a".toList (.evThenPost (exMsg (some "a") 1) (.ok2
     ∧ (run St.init (sched "a".toList (.evThenPost (exMsg (some "a") 1) (.other none)) [] [] [])).out = [.failErr "a".toList] := by
   decide
 
+/-- Ids may be reused by the other peer: once a request has ended — in any mode — a later event
+bearing the SAME id (a server request numbered like it, both peers count from 1) is an ordinary
+server message: it is put on the read stream like any other, nothing is held back or dropped. -/
+theorem c12_id_reuse_after_answer (st : St α) (k : Str) (mode : Mode α) (bg0 bg1 bg2 : List (Msg α))
+    (hwf : mode.wf k) (hbg : ∀ m ∈ bg0 ++ bg1 ++ bg2, m.key ≠ some k) (later : List (Msg α)) :
+    (run st (sched k mode bg0 bg1 bg2 ++ later.map .event)).out
+      = (run st (sched k mode bg0 bg1 bg2)).out ++ oks later := by
+  rw [run_append, run_bg _ later (Or.inl (run_sched st k mode bg0 bg1 bg2 hwf hbg).2.2)]
+
+example : (run St.init (sched "1".toList (.body (exMsg (some "1") 1)) [] [] [] ++ [.event (exMsg (some "1") 9)])).out
+    = [.routed (exMsg (some "1") 1), .routed (exMsg (some "1") 9)] := by decide
+
 /-- Instances are independent: however the actions of several transports living in one process
 are interleaved, what transport `i` puts on its read stream (its whole state) is what it would do
 alone with its own actions — equal request ids on different transports do not meet. -/
